@@ -357,6 +357,16 @@ func (w *worker) one(sc *scen.Scenario, seed uint64, prefix []uint32) *Exec {
 	ex := execute(w.t, sc, g, sched, execOpt{tier: w.tier})
 	w.account(sc, seed, ex)
 	fair := false
+	if ex.Capped {
+		// the end-of-run oracles presume quiescence: what they say about a run that was cut off by the step cap is void
+		kept := ex.Run.Viol[:0]
+		for _, v := range ex.Run.Viol {
+			if !v.AtEnd {
+				kept = append(kept, v)
+			}
+		}
+		ex.Run.Viol = kept
+	}
 	if ex.Capped && len(ex.Run.Viol) == 0 && ex.Run.HarnessErr == "" {
 		// unfair schedule or real livelock? decide under the fair schedule with the same program
 		w.out.Capped++
